@@ -276,36 +276,40 @@ void operator&=(std::vector<T>& v1, const C& c)
 template<class T, class C>
 void operator+=(std::vector<T>& v1, const C& c)
 {
+  const C c0(c); // c may be an element of v1 itself (v += v[i])
   for (auto& x : v1)
   {
-    x += c;
+    x += c0;
   }
 }
 
 template<class T, class C>
 void operator-=(std::vector<T>& v1, const C& c)
 {
+  const C c0(c); // c may be an element of v1 itself (v -= v[i])
   for (auto& x : v1)
   {
-    x -= c;
+    x -= c0;
   }
 }
 
 template<class T, class C>
 void operator*=(std::vector<T>& v1, const C& c)
 {
-  for (auto& x :v1)
+  const C c0(c); // c may be an element of v1 itself (v *= v[i])
+  for (auto& x : v1)
   {
-    x *= c;
+    x *= c0;
   }
 }
 
 template<class T, class C>
 void operator/=(std::vector<T>& v1, const C& c)
 {
+  const C c0(c); // c may be an element of v1 itself (v /= v[i])
   for (auto& x : v1)
   {
-    x /= c;
+    x /= c0;
   }
 }
 
